@@ -207,7 +207,52 @@ pub fn c03(ctx: &Ctx, subj: &dyn DynSubject, ty: &Ty, rep: &mut Report) {
                 }
             }
             log.classes.push("alloc-law-checked".into());
+            // the same law for the loaders whose region is not heap memory: what `load_mmap` / `mmap` allocate on the
+            // heap must not depend on how much borrowed payload the file holds (first cases of each subject only)
+            if cfg!(feature = "mmap") && !light() && early_case(subj.index(), 6) {
+                let path = ctx.tmp.join(format!("c03-{}-{:?}.bin", subj.index(), std::thread::current().id()).replace(['(', ')'], ""));
+                let vk = ctx.model.scale(ty, v, 7);
+                for loader in [crate::Loader::LoadMmap, crate::Loader::Mmap] {
+                    let mut stats = vec![];
+                    for val in [v, &vk, v] {
+                        match guard(|| subj.store(val, &path)) {
+                            Ok(Ok(())) => {}
+                            _ => return Ok(()),
+                        }
+                        match guard(|| subj.load(loader, &path, 0, crate::Script::Direct)) {
+                            Ok(Ok(o)) => stats.push(o.lib_allocs),
+                            _ => return Ok(()),
+                        }
+                    }
+                    log.extra_evals += 3;
+                    // (first load may initialise lazily: compare the scaled load with the second plain one)
+                    if stats[1].bytes > stats[2].bytes + 256 {
+                        std::fs::remove_file(&path).ok();
+                        return Err(Fail::new(
+                            &format!("loader-alloc-depends-on-borrowed-length:{:?}", loader),
+                            format!("{:?} allocated {} heap bytes in {} calls for this file, but {} bytes in {} calls after multiplying borrowed payload lengths by 7", loader, stats[2].bytes, stats[2].calls, stats[1].bytes, stats[1].calls),
+                        )
+                        .env(json!({"loader": format!("{:?}", loader)})));
+                    }
+                }
+                std::fs::remove_file(&path).ok();
+                log.classes.push("loader-alloc-law-checked".into());
+            }
         }
         Ok(())
     });
+}
+
+thread_local! {
+    static C03_CASES: std::cell::Cell<(usize, u32)> = const { std::cell::Cell::new((usize::MAX, 0)) };
+}
+
+/// True for the first `limit` cases that reach this point for the subject currently handled by this thread.
+fn early_case(subject: usize, limit: u32) -> bool {
+    C03_CASES.with(|c| {
+        let (s, n) = c.get();
+        let n = if s == subject { n } else { 0 };
+        c.set((subject, n + 1));
+        n < limit
+    })
 }
